@@ -150,6 +150,7 @@ def C16():
 
 def C19():
     import contracts.validators as V
+    import contracts.validators_extra as VX
     from contracts import replayers as R
 
     class _Lazy(ContractUnit):
@@ -168,13 +169,13 @@ def C19():
             return out
     return Property(
         "C19",
-        units=[ValidatorUnits()],
+        units=[ValidatorUnits()] + [ContractUnit(u) for u in VX.UNITS],
         level="proof",
         technique="exceptional postconditions on the real validators: returns iff all elements legal (loop invariants over flat / jagged nested "
                   "values), raises only subclasses of ValueError; attribute existence taken from the real classes",
         trusted_base=[SOLVERS, ENGINE, "pydantic runs the registered validators on construction and wraps ValueError into ValidationError (L1)"],
-        assumptions=["validate_text_format, RTFPage.validate_margin, RTFFigure.validate_figure_data, RTFDocument.validate_column_names and "
-                     "the decorator-coverage lemma are not yet under contract in this check",
+        assumptions=["validate_text_format, RTFFigure.validate_figure_data, the df / figure exclusivity part of RTFDocument.validate_column_names and "
+                     "the decorator-coverage lemma (which validator pydantic runs for which field) are not yet under contract in this check",
                      "empty vectors ([]) are outside the property's domain (validate_positive_value indexes v[0])"],
         replayers={"attributes.py::": R.replay_validators, "input.py::": R.replay_validators},
         design_ref="4/C19, A22",
@@ -361,18 +362,20 @@ def C05():
 
 def C07():
     from contracts.processor import PaginationBorders
+    from contracts.headers import RenderColumnHeaders
     from contracts.attributes import UpdateCell, UpdateRow, ToList, Iloc, LEMMAS
     from contracts.emitters import CellAsRtf, BorderAsRtf
     from contracts.placement import ShouldShowElement
     return Property(
         "C07", units=[ContractUnit(PaginationBorders()), ContractUnit(UpdateCell()), ContractUnit(UpdateRow()), ContractUnit(ToList()), ContractUnit(Iloc()),
-                      ContractUnit(CellAsRtf()), ContractUnit(BorderAsRtf()), ContractUnit(ShouldShowElement()), _render_unit(quick=("no_groups",), thorough=()), _multi_section_unit()]
+                      ContractUnit(CellAsRtf()), ContractUnit(BorderAsRtf()), ContractUnit(ShouldShowElement()), _render_unit(quick=("no_groups",), thorough=()), _multi_section_unit(), ContractUnit(RenderColumnHeaders())]
         + _note_units() + LEMMAS,
         level="proof",
         technique="whole-matrix postcondition of the real _apply_pagination_borders per page kind (column-loop invariants 'columns < c done, everything else "
                   "as before'), whole-view contracts of BroadcastValue.update_cell/to_list, emitter contracts for the cell border words",
         trusted_base=[SOLVERS, ENGINE, POLARS, "copy.deepcopy returns a fresh equal object graph"],
-        assumptions=["page border_first on the first column-header row (_render_column_headers) is not yet under contract in this check; multi-section "
+        assumptions=["rtf_page.border_first goes on every cell of the first header row of the first page and nowhere else (unit RenderColumnHeaders; the code "
+                     "looks only at header 0); multi-section "
                      "documents: first / last page border only on the first / last section (unit MultiSection); the component override computed by the processor (_apply_footnote_source_borders) reaches the "
                      "footnote/source emitters through render (unit RenderPage) and is applied on a copy (units EncodeFootnote/EncodeSource)"],
         replayers={}, design_ref="4/C07")
